@@ -6,7 +6,8 @@
 
    State   st = [g : Seq(<<name, value>>)   package-level variables in declaration order
                  h : Seq(cell)              heap: [k |-> "ints"|"bytes", v |-> Seq] | [k |-> "map", ks, vs] (insertion order) | [k |-> "S", v |-> <<a, b>>]
-                 fuel, pan (a panic is being propagated through a deferred call), dd (defers pending on the whole call stack)]
+                 fuel, pan (a panic is being propagated through a deferred call), dd (defers pending on the whole call stack),
+                 tmp (range loops and switches being executed on the whole call stack: U13)]
    Frame   fr = [env : Seq(<<name, value>>)  a STACK: declarations push, leaving a block truncates, look-up finds the LAST
                                              entry of a name (shadowing), dfr : Seq(deferred bodies)]
    Expression results  [o |-> "ok" | "panic" | "rt" | "oos", v, st];  "rt" is a run-time error (a panic Go raises itself).
@@ -217,6 +218,9 @@ RunDefers(P, dfr, i, st) ==
          IF r.c \in {"n", "ret"} THEN RunDefers(P, dfr, i - 1, r.st) ELSE Er("oos", r.st)
 
 Mine(r, lbl) == r.lbl = "" \/ r.lbl = lbl
+\* U13: a range loop / switch keeps temporaries on the evaluation stack while it runs; tmp counts them and is left
+\* untouched while a panic propagates, so that the recovering frame can tell whether the panic was raised inside one
+Leave(t0, r) == IF r.c = "panic" THEN r ELSE [r EXCEPT !.st.tmp = t0]
 
 ForLoop(P, s, fr, st) ==
     IF st.fuel = 0 THEN R("oos", fr, st)
@@ -287,22 +291,23 @@ Exec(P, s, fr, st) ==
                r0 == IF IsNone(s.init) THEN R("n", fr, st) ELSE Exec(P, s.init, fr, st)
            IN IF r0.c # "n" THEN Cut(r0, m) ELSE Cut(ForLoop(P, s, r0.fr, r0.st), m)
       [] s.k = "range" ->
-           FromE(EvalE(P, s.e, fr.env, st), fr, LAMBDA cv, s1 :
+           Leave(st.tmp, FromE(EvalE(P, s.e, fr.env, [st EXCEPT !.tmp = @ + 1]), fr, LAMBDA cv, s1 :
                LET items == CASE s.t = "str" -> [n |-> Len(cv)]
                               [] s.t \in {"ints", "bytes"} -> [n |-> IF cv.r = 0 THEN 0 ELSE Len(s1.h[cv.r].v)]
                               [] OTHER -> IF cv.r = 0 THEN [n |-> 0] ELSE [n |-> Len(s1.h[cv.r].ks), ks |-> s1.h[cv.r].ks, vs |-> s1.h[cv.r].vs]
                    start == IF Bug = "rangefrom1" /\ items.n > 0 THEN 1 ELSE 0
-               IN RangeLoop(P, s, cv, items, start, fr, s1))
+               IN RangeLoop(P, s, cv, items, start, fr, s1)))
       [] s.k = "brk" -> [R("brk", fr, st) EXCEPT !.lbl = s.lbl]
       [] s.k = "cont" -> [R("cont", fr, st) EXCEPT !.lbl = s.lbl]
       [] s.k = "sw" ->
            LET m == Len(fr.env)
                r0 == IF IsNone(s.init) THEN R("n", fr, st) ELSE Exec(P, s.init, fr, st)
            IN IF r0.c # "n" THEN Cut(r0, m)
-              ELSE Cut(FromE(IF IsNone(s.tag) THEN Ok(TRUE, r0.st) ELSE EvalE(P, s.tag, r0.fr.env, r0.st), r0.fr, LAMBDA tv, s1 :
-                       FromE(FindClause(P, s, tv, 1, 1, r0.fr.env, s1), r0.fr, LAMBDA ci, s2 :
+              ELSE Leave(st.tmp,
+                   Cut(FromE(IF IsNone(s.tag) THEN Ok(TRUE, r0.st) ELSE EvalE(P, s.tag, r0.fr.env, r0.st), r0.fr, LAMBDA tv, s1 :
+                       FromE(FindClause(P, s, tv, 1, 1, r0.fr.env, [s1 EXCEPT !.tmp = @ + 1]), r0.fr, LAMBDA ci, s2 :
                            LET cj == IF ci = 0 THEN DefaultIdx(s) ELSE ci IN
-                           IF cj = 0 THEN R("n", r0.fr, s2) ELSE RunClauses(P, s, cj, r0.fr, s2))), m)
+                           IF cj = 0 THEN R("n", r0.fr, s2) ELSE RunClauses(P, s, cj, r0.fr, s2))), m))
       [] s.k = "ret" ->
            IF Bug = "deferearly" /\ Len(fr.dfr) > 0 THEN
                \* the deviation: deferred calls run BEFORE the results are evaluated
@@ -368,6 +373,7 @@ CallF(P, fname, args, st) ==
               IN IF rd.o = "ok" THEN Ok(rv, rd.st) ELSE rd
          [] r.c = "panic" ->
               IF nd = 0 THEN Er("panic", s1)
+              ELSE IF s1.tmp > st.tmp THEN Er("oos", [s1 EXCEPT !.tmp = st.tmp])                             \* U13
               ELSE IF nd = 1 /\ ~f.named THEN
                   LET rd == ExecDeferred(P, r.fr.dfr[1], [s1 EXCEPT !.pan = TRUE]) IN
                   IF rd.c \in {"n", "ret"} /\ ~rd.st.pan THEN Ok(zeros, rd.st) ELSE Er("oos", rd.st)       \* U5
@@ -389,7 +395,7 @@ BindArgs(ps, as, i, st, acc) ==
     ELSE IF ps[i].t \in {"ints", "bytes"} THEN BindArgs(ps, as, i + 1, Alloc(st, [k |-> ps[i].t, v |-> as[i]]), Append(acc, NewRef(st)))
     ELSE BindArgs(ps, as, i + 1, st, Append(acc, as[i]))
 
-St0 == [g |-> <<>>, h |-> <<>>, fuel |-> Fuel, pan |-> FALSE, dd |-> 0]
+St0 == [g |-> <<>>, h |-> <<>>, fuel |-> Fuel, pan |-> FALSE, dd |-> 0, tmp |-> 0]
 
 \* result value as JSON-able data: str / bytes / ints -> arrays, nil -> "nil", maps -> [keys, values], S -> [a, b], pS -> ["&", a, b]
 OutV(t, v, h) ==
